@@ -196,12 +196,31 @@ def analyse_loop(facts, R, path, module):
             into_ret.add(op_place(s["rv"]["use"])["l"])
     finals = [(i, j, s) for i, j, s in b.assigns() if s["rv"].get("agg") == "adt" and s["rv"]["adt"] == "fleet::RemoteResult" and s["place"]["l"] in into_ret and not s["place"]["p"]
               and i in b.live_blocks()]
-    R.check(len(finals) == 2, "stop-rows", fn, "two result rows", "expected an Ok row and an exhausted/stop row, found %d" % len(finals), b.span)
-    last_error_local = None
+    # (single-exit form: one literal after the loop, fed by `reply` / `last_error` variables: one row per feasible combination of the
+    # definitions reaching it)
+    frows = []
     for i, j, s in finals:
-        v = sym.rvalue(s["rv"])
+        alts = None
+        if getattr(b, "changed", False):
+            from analysis.sym import split_rows
+            alts = split_rows(sym, i, j, s["rv"])
+        if alts and len(alts) > 1:
+            frows += [(i, j, s, v_, True) for _, v_ in alts]
+        else:
+            frows.append((i, j, s, sym.rvalue(s["rv"]), False))
+
+    def _is_ok_row(i_, v_, split_):
+        d_ = dict(v_[3])
+        if split_:
+            return d_["value"][0] == "agg" and d_["value"][2] == "Some"
+        return i_ in b.reachable((okT,)) and N not in b.reachable((i_,)) and b.dominates(okT, i_)
+    n_okrows = len([1 for i_, j_, s_, v_, sp_ in frows if _is_ok_row(i_, v_, sp_)])
+    R.check((len(finals) == 2 and len(frows) == 2) or (len(frows) > len(finals) and n_okrows >= 1 and n_okrows < len(frows)), "stop-rows", fn, "two result rows",
+            "expected an Ok row and an exhausted/stop row, found %d literal(s) / %d row(s)" % (len(finals), len(frows)), b.span)
+    last_error_local = None
+    for i, j, s, v, split_ in frows:
         d = dict(v[3])
-        if i in b.reachable((okT,)) and N not in b.reachable((i,)) and b.dominates(okT, i):
+        if _is_ok_row(i, v, split_):
             ok = d["value"][0] == "agg" and d["value"][2] == "Some" and "Ok" in render(d["value"]) and d["error"][0] == "agg" and d["error"][2] == "None"
             R.check(ok, "stop-rows", fn, "Ok row", "success row is %s" % render(v)[:200], s.get("span"), "value: Some(reply), error: None")
         else:
